@@ -87,6 +87,8 @@ def run_streams(ctx, mask, monitor, signature, streams, known=None):
             rng = ctx.case_rng(name, i)
             if kw.get('saturate'):
                 recipe = S.gen_saturate(rng, kw['saturate'], gen=name)
+            elif kw.get('ppool_stuck'):
+                recipe = S.gen_ppool_stuck(rng, gen=name)
             elif kw.get('failready'):
                 recipe = S.gen_failready(rng, kw['failready'], gen=name)
             elif kw.get('branches'):
